@@ -6,6 +6,7 @@ import Gmsm.Spec.SM4
 import Gmsm.Spec.SM3
 import Gmsm.Spec.HMAC
 import Gmsm.Spec.GCM
+import Driver.SM2
 namespace Driver
 open Gmsm
 
@@ -95,6 +96,9 @@ def ghashOp (args : List String) : String :=
   | _ => "bad-op"
 
 def specDispatch (toks : List String) : Option String :=
+  match sm2Dispatch toks with
+  | some r => some r
+  | none =>
   match toks with
   | "sm4blk" :: rest => some (sm4blk rest)
   | "gcmenc" :: rest => some (gcmenc rest)
